@@ -621,8 +621,9 @@ func (rep *reporter) dispatcherFamily(t *testing.T, deadline time.Time, workers 
 					case x.j.class == "allowed":
 						r.Add("ref_allow", 1)
 					}
-					r.Distinct(fmt.Sprintf("dispatcher-chain|%s|%s|max=%d|pre=%d%s|%s|dead=%d:%s|attempts=%d|requests=%d", dc.Policy, strings.Join(dc.URLs, ">"), dc.Max, dc.Pre, dc.PreKind, x.j.class,
-						x.res.dead, x.res.deadReason, len(x.res.attempts), len(x.res.seen)))
+					// class of a case: policy, chain, whether earlier attempts failed (and how), reference class, observed end
+					r.Distinct(fmt.Sprintf("dispatcher-chain|%s|%s|pre>0=%v%s|%s|dead=%d:%s|attempts-pre=%d", dc.Policy, strings.Join(dc.URLs, ">"), dc.Pre > 0, dc.PreKind, x.j.class,
+						x.res.dead, x.res.deadReason, len(x.res.attempts)-dc.Pre))
 					if sk := strings.SplitN(x.j.class, ":", 2)[0]; !sampled[sk] && len(dc.URLs) > 1 && dc.Max > 0 {
 						sampled[sk] = true
 						r.Sample(map[string]any{"kind": "dispatcher-chain", "policy": dc.PolSpec.label(), "retry_max": dc.Max, "earlier_failed_attempts": dc.Pre, "chain": dc.chainText(),
